@@ -205,6 +205,15 @@ func H_C04_Tree(shape int) {
 		return err
 	}
 
+	// the same statement text may already have run outside any transaction
+	// (it is then in the prepared statement cache as a pool-level statement)
+	var base []int
+	if cfg.prepare && !cfg.create && verifrt.Bool("warm") {
+		if write(db) == nil {
+			base = append(base, ref.cur...)
+		}
+		ref.cur = nil
+	}
 	var err error
 	var pv interface{}
 	func() {
@@ -218,9 +227,9 @@ func H_C04_Tree(shape int) {
 	verifrt.Observe("durable", s.Durable)
 
 	// reference: everything visible at the end is durable iff the outermost block succeeded
-	var want []int
+	want := append([]int{}, base...)
 	if err == nil && pv == nil {
-		want = ref.cur
+		want = append(want, ref.cur...)
 	}
 	verifrt.Assert(len(s.Durable) == len(want), "C04.durable")
 	for i := range want {
@@ -242,4 +251,112 @@ func H_C04_Tree(shape int) {
 	if !fired && err != nil {
 		verifrt.Assert(errors.Is(err, errBlock), "C04.spurious-error")
 	}
+}
+
+// ---- manual Begin … SavePoint / RollbackTo / writes … Commit | Rollback
+
+// shapes: (sequence of 3 (thorough: 4) operations out of 5 kinds) x PrepareStmt x write kind
+func N_C04_Manual(tier int) int {
+	if tier > 0 {
+		return 4 * 625
+	}
+	return 2 * 125
+}
+
+func H_C04_Manual(shape int) {
+	nops, nseq := 3, 125
+	if shape >= 2*125 {
+		// thorough-only shapes are numbered after the quick ones
+		shape -= 2 * 125
+		nops, nseq = 4, 625
+		if shape >= 4*625-2*125 {
+			return
+		}
+	}
+	prepare := (shape/nseq)&1 != 0
+	create := (shape/nseq)&2 != 0
+	seq := shape % nseq
+	kinds := make([]int, nops)
+	for k := range kinds {
+		kinds[k] = seq % 5
+		seq /= 5
+	}
+	s := NewStore()
+	db := openReal(stubDialector{}, s, &gorm.Config{PrepareStmt: prepare})
+	s.FaultAt = verifrt.Intn("fault_at", 0, 8)
+	tx := db.Begin()
+	if tx.Error != nil {
+		verifrt.Assert(errors.Is(tx.Error, errInjected), "C04.begin-error")
+		verifrt.Assert(s.OpenTx() == 0 && len(s.Durable) == 0, "C04.begin-failed-state")
+		return
+	}
+	var cur []int            // tokens written so far in the transaction
+	saves := map[string]int{} // save point -> number of writes at that time
+	order := []string{}
+	for k := 0; k < nops; k++ {
+		switch kinds[k] {
+		case 0: // write
+			before := s.nextTok
+			var err error
+			if create {
+				err = tx.Create(&Item{Name: "w"}).Error
+			} else {
+				err = tx.Exec("INSERT INTO w VALUES (?)", k).Error
+			}
+			if err == nil {
+				verifrt.Assert(s.nextTok == before+1, "C04.one-write-per-statement")
+				cur = append(cur, s.nextTok)
+			}
+		case 1, 2:
+			name := []string{"", "spa", "spb"}[kinds[k]]
+			if tx.SavePoint(name).Error == nil {
+				saves[name] = len(cur)
+				order = append(order, name)
+			}
+			tx.Error = nil
+		case 3, 4:
+			name := []string{"", "spa", "spb"}[kinds[k]-2]
+			err := tx.RollbackTo(name).Error
+			tx.Error = nil
+			if n, ok := saves[name]; ok {
+				verifrt.Assert(err == nil, "C04.rollback-to-error")
+				// exactly the writes made after the save point are undone; later save points are gone
+				cur = cur[:n:n]
+				for len(order) > 0 && order[len(order)-1] != name {
+					delete(saves, order[len(order)-1])
+					order = order[:len(order)-1]
+				}
+			} else {
+				verifrt.Assert(err != nil, "C04.rollback-to-unknown-savepoint")
+			}
+		}
+	}
+	commit := verifrt.Bool("commit")
+	var err error
+	if commit {
+		err = tx.Commit().Error
+	} else {
+		err = tx.Rollback().Error
+	}
+	verifrt.Reach("finished")
+	verifrt.Observe("log", s.Kinds())
+	verifrt.Observe("durable", s.Durable)
+	var want []int
+	if commit && err == nil {
+		want = cur
+	}
+	verifrt.Assert(len(s.Durable) == len(want), "C04.durable")
+	for i := range want {
+		if i < len(s.Durable) {
+			verifrt.Assert(s.Durable[i] == want[i], "C04.durable")
+		}
+	}
+	if !commit {
+		verifrt.Assert(err == nil, "C04.rollback-error")
+	}
+	if err != nil {
+		verifrt.Assert(errors.Is(err, errInjected), "C04.error-propagation")
+	}
+	verifrt.Assert(s.OpenTx() == 0, "C04.finished")
+	verifrt.Assert(PoolInUse(dbPool(db)) == 0, "C04.pool")
 }
